@@ -517,10 +517,10 @@ def asan_stream(cx, seed, n, budget_s=480):
     k = 0
     t_start = time.time()
     while k < n:
-        if time.time() - t_start > budget_s or time.time() - cx.chk.t0 > 1680:
+        if time.time() - t_start > budget_s or time.time() - cx.chk.t0 > 1740:
             cx.chk.assumptions.append("ASan stream: wall-clock cap reached after %d of %d planned histories" % (k, n))
             break
-        m = min(500, n - k)
+        m = min(250, n - k)
         hs = [G.generate(Rng(seed, "c14", "asan", k + i), cx.avoid) for i in range(m)]
         jobs = [job(k + i, h.src()) for i, h in enumerate(hs)]
         t0 = time.time()
@@ -561,7 +561,7 @@ def run(tier, seed):
             k += m
             if len(cx.cands) > 400:
                 break
-            if time.time() - chk.t0 > 1200:
+            if time.time() - chk.t0 > 1080:
                 chk.assumptions.append("wall-clock cap: %d of %d planned histories were run" % (k, n_hist))
                 break
         if cx.cands:
